@@ -272,6 +272,11 @@ def run(ctx: Ctx):
                 V, X = val.elts
                 vv, _ = t.origins(V)
                 _, xx = t.origins(X)
+                if isinstance(V, ast.Constant) and V.value is True and xx and _relabel_guarded(m, fn, n):
+                    # the one deliberate relabelling (payloads of LSPAny / LSPObject / LSPArray are valid whatever they
+                    # contain), written as an explicit loop under the membership guard
+                    ctx.ok("relabel-exception-guarded", {"function": fname})
+                    continue
                 # a value variable used in the flag position / a flag used as value
                 _, v_as_x = t.origins(V)
                 missing = sorted(xx - vv)
@@ -332,6 +337,16 @@ def run(ctx: Ctx):
                         continue
                     ctx.check(not missing, "flag-covers-value", f"{fname}:yield from ({ast.unparse(V)[:30]}, {ast.unparse(X)[:30]})",
                               "a generator expression relabels generated values", P_TD, n.lineno)
+                    continue
+                # a stream that carries nothing a pair generator produced (a constant table of labelled samples): its
+                # labels are the table's own (decided by the base-table rule (b) on the folded output)
+                try:
+                    vv0, xx0 = t.origins(src, {}, {})
+                except Exception:
+                    vv0, xx0 = {1}, {1}
+                if not vv0 and not xx0 and not any(isinstance(c_, ast.Call) and (dotted(c_.func) or "").split(".")[-1] in pairgens
+                                                   for c_ in ast.walk(src)):
+                    ctx.ok("flag-covers-value", {"function": fname, "delegates_to": "constant samples"})
                     continue
                 raise AnalysisError(f"{P_TD}:{n.lineno}: unsupported `yield from` operand in {fname}")
     ctx.floor("yield sites", n_yields, 45)
@@ -529,6 +544,47 @@ def _testdata_flatten(ctx: Ctx):
             ctx.check(exp.get(k) == got.get(k), "vectors-use-nearest-declaration", f"struct={sname} prop={k}",
                       f"testdata get_all_properties gives {sname}.{k} the declaration of {got.get(k)!r}; the nearest one is "
                       f"{exp.get(k)!r}: vectors are generated (and labelled) against the wrong property type", flatten.P_TD, None)
+
+
+def _const_names(m, coll):
+    """string constants of a collection display or of a hoisted module-level constant collection"""
+    if isinstance(coll, ast.Name):
+        cname_ = coll.id
+        for st_ in m.tree.body:
+            if isinstance(st_, (ast.Assign, ast.AnnAssign)) and getattr(st_, "value", None) is not None:
+                tg_ = st_.targets if isinstance(st_, ast.Assign) else [st_.target]
+                if any(isinstance(t_, ast.Name) and t_.id == cname_ for t_ in tg_):
+                    coll = st_.value
+        if isinstance(coll, ast.Call) and dotted(coll.func) in ("frozenset", "tuple", "set", "list") and len(coll.args) == 1:
+            coll = coll.args[0]
+    if isinstance(coll, (ast.List, ast.Tuple, ast.Set)):
+        return {e.value for e in coll.elts if isinstance(e, ast.Constant)}
+    return None
+
+
+def _relabel_guarded(m, fn, node) -> bool:
+    """Is the statement reached only for the names of the relabel exception?  Either inside `if N in <names>` or after an
+    early exit `if N not in <names>: ...; return` at the top level of the function."""
+    allowed = set(RELABEL_EXCEPTION[1])
+    p = m.parents.get(node)
+    top_stmt = node
+    while p is not None and p is not fn:
+        if isinstance(p, ast.If) and isinstance(p.test, ast.Compare) and len(p.test.ops) == 1 and isinstance(p.test.ops[0], ast.In):
+            names = _const_names(m, p.test.comparators[0])
+            # the node must be in the body (not the else branch)
+            if names is not None and names <= allowed and any(node is d or any(node is x for x in ast.walk(d)) for d in p.body):
+                return True
+        top_stmt = p
+        p = m.parents.get(p)
+    for st in fn.body:
+        if st is top_stmt:
+            break
+        if isinstance(st, ast.If) and not st.orelse and isinstance(st.test, ast.Compare) and len(st.test.ops) == 1 \
+                and isinstance(st.test.ops[0], ast.NotIn) and st.body and isinstance(st.body[-1], ast.Return):
+            names = _const_names(m, st.test.comparators[0])
+            if names is not None and names <= allowed:
+                return True
+    return False
 
 
 def _pair_stream(m, fn, e, pairgens, level, depth=0) -> bool:
